@@ -14,10 +14,101 @@ import (
 )
 
 var Registry = map[string]func(){
-	"ApplyOrder":   ApplyOrder,
-	"DrainDecode":  DrainDecode,
-	"DrainApply":   DrainApply,
-	"FailedSubmit": FailedSubmit,
+	"ApplyOrder":       ApplyOrder,
+	"DrainDecode":      DrainDecode,
+	"DrainApply":       DrainApply,
+	"FailedSubmit":     FailedSubmit,
+	"ConcurrentSubmit": ConcurrentSubmit,
+	"DrainOverflow":    DrainOverflow,
+}
+
+// ConcurrentSubmit (C44): the pipeline is full; two callers block in Submit at the same time
+// (cooperatively scheduled, either order); one of them gives up (its context is cancelled),
+// then a worker makes room and the other goes through; a later submission succeeds as well.
+// Every block whose Submit returned nil is applied once the stages run: a caller that gave
+// up must not leave a gap in the sequence numbers.
+func ConcurrentSubmit() {
+	live := mkCtx(false)
+	p := pipeline.VerifNewStartedPipeline(1, live, nil)
+	applied := map[uint]bool{}
+	stage := pipeline.NewApplyStage(func(it *pipeline.BlockItem) error {
+		applied[it.BlockType()] = true
+		return nil
+	}, 0)
+	ch := pipeline.VerifSubmitChan(p)
+	sym.Assume(p.Submit(mkCtx(false), 10, nil, pcommon.Tip{}) == nil) // fills the pipeline
+	ctxA, ctxB := mkCtx(false), mkCtx(false)
+	var errA, errB error
+	doneA, doneB := false, false
+	a := func() { errA = p.Submit(ctxA, 11, nil, pcommon.Tip{}); doneA = true }
+	b := func() { errB = p.Submit(ctxB, 12, nil, pcommon.Tip{}); doneB = true }
+	firstGivesUp := sym.Bool("first_caller_gives_up")
+	var delivered []*pipeline.BlockItem
+	step := 0
+	env := func() bool {
+		step++
+		if step == 1 {
+			if firstGivesUp {
+				close(ctxA.done)
+			} else {
+				close(ctxB.done)
+			}
+			return true
+		}
+		if len(ch) > 0 { // a decode worker takes the queued block
+			delivered = append(delivered, <-ch)
+			return true
+		}
+		return false
+	}
+	if sym.Param("order") == 0 {
+		sym.RunGoroutines(env, a, b)
+	} else {
+		sym.RunGoroutines(env, b, a)
+	}
+	sym.Reach("ran")
+	sym.Assert(doneA && doneB, "both callers return")
+	if firstGivesUp {
+		sym.Assert(errA != nil && errB == nil, "the caller whose context was cancelled fails, the other succeeds")
+	} else {
+		sym.Assert(errB != nil && errA == nil, "the caller whose context was cancelled fails, the other succeeds")
+	}
+	for len(ch) > 0 {
+		delivered = append(delivered, <-ch)
+	}
+	sym.Assert(p.Submit(mkCtx(false), 13, nil, pcommon.Tip{}) == nil, "a later submission succeeds")
+	for len(ch) > 0 {
+		delivered = append(delivered, <-ch)
+	}
+	for _, it := range delivered {
+		_, _ = stage.ProcessWithStatus(live, it)
+	}
+	survivor := uint(12)
+	if !firstGivesUp {
+		survivor = 11
+	}
+	sym.Assert(applied[10] && applied[survivor] && applied[13], "every successfully submitted block is applied although a blocked caller gave up in between")
+}
+
+// DrainOverflow (C43): three blocks reach an apply stage with a reorder buffer of one in the
+// order 2, 1, 0, so the buffer overflows (the runner reports the back-pressure error); the
+// real apply runner processes them all. Afterwards nothing is pending; a fourth block that
+// is submitted and still queued is counted as pending (an overflow must not make the
+// in-flight count drift).
+func DrainOverflow() {
+	live := mkCtx(false)
+	p := pipeline.VerifNewStartedPipeline(4, live, nil)
+	pipeline.VerifSetMaxPending(p, func(*pipeline.BlockItem) error { return nil }, 1)
+	for _, seq := range []uint64{2, 1, 0} {
+		pipeline.VerifInject(p, pipeline.NewBlockItem(0, nil, pcommon.Tip{}, seq))
+	}
+	sym.Assert(p.PendingCount() == 3, "three blocks in flight")
+	close(pipeline.VerifDecodedChan(p))
+	pipeline.VerifApplyRunner(p, live)
+	sym.Reach("ran")
+	sym.Assert(p.PendingCount() == 0, "once every block has left the apply stage nothing is pending")
+	sym.Assume(p.Submit(mkCtx(false), 0, nil, pcommon.Tip{}) == nil)
+	sym.Assert(p.PendingCount() == 1, "a block submitted after a buffer overflow is counted as pending")
 }
 
 // a context whose Done channel the harness controls
